@@ -14,7 +14,7 @@ cp /verif/known_findings.jsonl "$vd/"; mkdir -p "$vd/sa" && ln -s /verif/sa/test
 : > "$outf"
 for p in $props; do
   grep -q "\"$p\"" /verif/sa/props/*.go 2>/dev/null || true
-  out=$(VERIFSA_CHILD=1 /verif/bin/verifsa check $p --repo "$d" --verif "$vd" --tier quick 2>&1); rc=$?
+  out=$(VERIFSA_CHILD=1 ${VERIFSA_BIN:-/verif/bin/verifsa} check $p --repo "$d" --verif "$vd" --tier quick 2>&1); rc=$?
   if [ $rc -ne 0 ]; then
     echo "$p exit=$rc" >> "$outf"
     echo "$out" | grep -v "^VIOLATION\|^KNOWN\|quick:" | head -12 | sed 's/^/    /' >> "$outf"
